@@ -1,5 +1,303 @@
 package main
 
-import "verifharness/core"
+// C10 — generator. Every random choice derives from ctx.R.
+//
+// Families (the quick tier contains all of them):
+//   debounce   short scripts over 1..3 keys with 1..3 subscribers (prompt / on command), clock
+//              advances steered to interval-1 / interval / interval+1, Subscribe / cancel / Close
+//              at random positions, calls after Close;
+//   stall      a subscriber that never reads (or reads on command) + a burst of 50..60 values so
+//              that a delivery gets blocked on its full buffer (51 absorbed, the 52nd blocks),
+//              other subscribers before / after it, then every pair of follow-up actions
+//              (cancel the stalled one, cancel another, Close, Batch, Subscribe, read, read all,
+//              advance);
+//   sweep      one base script (with and without a blocked delivery), cancellation of the stalled
+//              subscriber / of a prompt one / Close inserted at EVERY position (quick: every
+//              position of the short bases, a stride over the long ones);
+//   multi      several stalled subscribers cancelled one after the other while a delivery is
+//              blocked (each cancellation is an independent coin of the forwarder's select).
 
-func c10Gen(ctx *core.Ctx) {}
+import (
+	"fmt"
+
+	"verifharness/core"
+	"verifharness/hx"
+)
+
+func c10Must(ctx *core.Ctx, in c10Input, kind string) {
+	// Close is called at most once per script: a second one becomes a 1 ms advance
+	seen := false
+	for i := range in.Ops {
+		if in.Ops[i].Op == "close" {
+			if seen {
+				in.Ops[i] = c10Op{Op: "adv", D: 1}
+			}
+			seen = true
+		}
+	}
+	if err := c10RunCase(ctx, in, kind); err != nil {
+		panic(fmt.Sprintf("c10 generator produced an invalid script (%s): %v", kind, err))
+	}
+}
+
+// steered advance: around the interval, or small, or large
+func c10Adv(r *hx.Rand, iv int) int {
+	switch r.Intn(8) {
+	case 0:
+		if iv > 1 {
+			return iv - 1
+		}
+		return 1
+	case 1, 2:
+		return iv
+	case 3:
+		return iv + 1
+	case 4:
+		return 2*iv + r.Intn(3)
+	case 5:
+		return 1
+	default:
+		return r.Range(1, iv)
+	}
+}
+
+func c10GenDebounce(r *hx.Rand, long bool) c10Input {
+	ivs := []int{2, 5, 10, 100}
+	iv := ivs[r.Intn(len(ivs))]
+	n := r.Range(8, 22)
+	if long {
+		n = r.Range(20, 60)
+	}
+	nkeys := r.Range(1, 3)
+	in := c10Input{Interval: iv}
+	nsub, closed := 0, false
+	prompt := []bool{}
+	add := func(op c10Op) { in.Ops = append(in.Ops, op) }
+	if r.Chance(4, 5) {
+		p := r.Chance(3, 4)
+		add(c10Op{Op: "sub", P: p})
+		prompt = append(prompt, p)
+		nsub++
+	}
+	closeAt := -1
+	if r.Chance(1, 2) {
+		closeAt = r.Range(n/2, n+2)
+	}
+	for len(in.Ops) < n {
+		if len(in.Ops) == closeAt && !closed {
+			add(c10Op{Op: "close"})
+			closed = true
+			continue
+		}
+		switch x := r.Intn(20); {
+		case x < 8:
+			add(c10Op{Op: "batch", K: r.Intn(nkeys)})
+		case x < 14:
+			add(c10Op{Op: "adv", D: c10Adv(r, iv)})
+		case x < 16 && nsub < 4:
+			p := r.Chance(2, 3)
+			add(c10Op{Op: "sub", P: p})
+			prompt = append(prompt, p)
+			nsub++
+		case x < 17 && nsub > 0:
+			add(c10Op{Op: "cancel", I: r.Intn(nsub)})
+		case x < 19 && nsub > 0:
+			i := r.Intn(nsub)
+			if r.Chance(1, 4) {
+				add(c10Op{Op: "readall", I: i})
+			} else {
+				add(c10Op{Op: "read", I: i})
+			}
+		default:
+			add(c10Op{Op: "adv", D: iv})
+		}
+	}
+	// let what is pending come due and be seen
+	add(c10Op{Op: "adv", D: 2 * iv})
+	for i := 0; i < nsub; i++ {
+		if !prompt[i] && r.Chance(1, 2) {
+			add(c10Op{Op: "readall", I: i})
+		}
+	}
+	return in
+}
+
+var c10Tails = []string{"cancel-stalled", "cancel-other", "close", "batch", "sub", "read", "readall", "adv", "batch-adv"}
+
+// c10TailOps: the follow-up action named t, for a script whose stalled subscriber is [st] and
+// which has [other] (>= 0) as another subscriber.
+func c10TailOps(t string, st, other, iv int, r *hx.Rand) []c10Op {
+	switch t {
+	case "cancel-stalled":
+		return []c10Op{{Op: "cancel", I: st}}
+	case "cancel-other":
+		if other < 0 {
+			return []c10Op{{Op: "adv", D: 1}}
+		}
+		return []c10Op{{Op: "cancel", I: other}}
+	case "close":
+		return []c10Op{{Op: "close"}}
+	case "batch":
+		return []c10Op{{Op: "batch", K: 1000 + r.Intn(2)}}
+	case "sub":
+		return []c10Op{{Op: "sub", P: r.Bool()}}
+	case "read":
+		return []c10Op{{Op: "read", I: st}}
+	case "readall":
+		return []c10Op{{Op: "readall", I: st}}
+	case "adv":
+		return []c10Op{{Op: "adv", D: c10Adv(r, iv)}}
+	case "batch-adv":
+		return []c10Op{{Op: "batch", K: 1000}, {Op: "adv", D: iv}}
+	}
+	panic("c10: tail " + t)
+}
+
+// c10StallBase: subscribers (the stalled one among them) + a burst of n values, one per interval.
+// layout 0: stalled only; 1: stalled, prompt; 2: prompt, stalled; 3: prompt, stalled, on-command.
+func c10StallBase(iv, layout, n int) (in c10Input, stalled, other int) {
+	in = c10Input{Interval: iv}
+	switch layout {
+	case 0:
+		in.Ops = append(in.Ops, c10Op{Op: "sub", P: false})
+		stalled, other = 0, -1
+	case 1:
+		in.Ops = append(in.Ops, c10Op{Op: "sub", P: false}, c10Op{Op: "sub", P: true})
+		stalled, other = 0, 1
+	case 2:
+		in.Ops = append(in.Ops, c10Op{Op: "sub", P: true}, c10Op{Op: "sub", P: false})
+		stalled, other = 1, 0
+	default:
+		in.Ops = append(in.Ops, c10Op{Op: "sub", P: true}, c10Op{Op: "sub", P: false}, c10Op{Op: "sub", P: false},
+			c10Op{Op: "readall", I: 2})
+		stalled, other = 1, 2
+	}
+	in.Ops = append(in.Ops, c10Op{Op: "burst", K: 0, D: iv, N: n})
+	return in, stalled, other
+}
+
+func c10Insert(ops []c10Op, pos int, op c10Op) []c10Op {
+	out := make([]c10Op, 0, len(ops)+1)
+	out = append(out, ops[:pos]...)
+	out = append(out, op)
+	out = append(out, ops[pos:]...)
+	return out
+}
+
+func c10Gen(ctx *core.Ctx) {
+	r := ctx.R
+	scale := 1
+	if ctx.Thorough {
+		scale = 20
+	}
+
+	// --- debounce ---------------------------------------------------------------------------
+	for i := 0; i < 260*scale; i++ {
+		c10Must(ctx, c10GenDebounce(r, i%10 == 9), "debounce")
+	}
+
+	// --- stall: every pair of follow-up actions after the burst --------------------------------
+	// (the 52nd value is the one that blocks: 51 = nothing blocked yet, 53+ = further values
+	// pile up in the queue behind the blocked delivery)
+	sizes := []int{52}
+	if ctx.Thorough {
+		sizes = []int{50, 51, 52, 53, 60}
+	}
+	for _, n := range sizes {
+		for _, t1 := range c10Tails {
+			for _, t2 := range c10Tails {
+				layout := r.Intn(4)
+				iv := []int{2, 10}[r.Intn(2)]
+				in, st, other := c10StallBase(iv, layout, n)
+				in.Ops = append(in.Ops, c10TailOps(t1, st, other, iv, r)...)
+				in.Ops = append(in.Ops, c10TailOps(t2, st, other, iv, r)...)
+				// epilogue inside the script: let the rest come due, then release the stalled one
+				in.Ops = append(in.Ops, c10Op{Op: "adv", D: 2 * iv})
+				if r.Bool() {
+					in.Ops = append(in.Ops, c10Op{Op: "readall", I: st})
+				}
+				c10Must(ctx, in, "stall")
+			}
+		}
+	}
+	// random longer tails, other burst sizes
+	for i := 0; i < 40*scale; i++ {
+		n := []int{50, 51, 52, 53, 55, 60}[r.Intn(6)]
+		layout := r.Intn(4)
+		iv := []int{2, 10}[r.Intn(2)]
+		in, st, other := c10StallBase(iv, layout, n)
+		for j, m := 0, r.Range(1, 5); j < m; j++ {
+			in.Ops = append(in.Ops, c10TailOps(c10Tails[r.Intn(len(c10Tails))], st, other, iv, r)...)
+		}
+		in.Ops = append(in.Ops, c10Op{Op: "adv", D: 2 * iv})
+		c10Must(ctx, in, "stall")
+	}
+
+	// --- sweep: cancellation / Close at every position ---------------------------------------
+	// short base without blocking: every position
+	short := c10Input{Interval: 10, Ops: []c10Op{
+		{Op: "sub", P: true}, {Op: "sub", P: false}, {Op: "batch", K: 0}, {Op: "adv", D: 4}, {Op: "batch", K: 0},
+		{Op: "batch", K: 1}, {Op: "adv", D: 9}, {Op: "adv", D: 1}, {Op: "batch", K: 0}, {Op: "read", I: 1},
+		{Op: "adv", D: 10}, {Op: "batch", K: 1}, {Op: "adv", D: 10}, {Op: "readall", I: 1}, {Op: "adv", D: 5}}}
+	for pos := 1; pos <= len(short.Ops); pos++ {
+		for _, ins := range []c10Op{{Op: "cancel", I: 0}, {Op: "cancel", I: 1}, {Op: "close"}} {
+			if ins.Op == "cancel" && ins.I == 1 && pos < 2 {
+				continue
+			}
+			in := c10Input{Interval: short.Interval, Ops: c10Insert(short.Ops, pos, ins)}
+			c10Must(ctx, in, "sweep")
+		}
+	}
+	// long base with a blocked delivery: positions from the last few values of the burst to the end
+	// (quick), every position (thorough)
+	for _, layout := range []int{1, 2} {
+		base, st, other := c10StallBase(2, layout, 53)
+		base = c10Expand(base)
+		base.Ops = append(base.Ops, c10Op{Op: "batch", K: 7}, c10Op{Op: "adv", D: 2}, c10Op{Op: "sub", P: true},
+			c10Op{Op: "adv", D: 2})
+		from := len(base.Ops) - 14
+		stride := 1
+		if ctx.Thorough {
+			from = 2
+		}
+		for pos := from; pos <= len(base.Ops); pos += stride {
+			for _, ins := range []c10Op{{Op: "cancel", I: st}, {Op: "cancel", I: other}, {Op: "close"}} {
+				in := c10Input{Interval: base.Interval, Ops: c10Insert(base.Ops, pos, ins)}
+				// after the inserted action, the complementary one at the end
+				if ins.Op == "close" {
+					in.Ops = append(in.Ops, c10Op{Op: "cancel", I: st})
+				} else if r.Bool() {
+					in.Ops = append(in.Ops, c10Op{Op: "close"})
+				}
+				c10Must(ctx, in, "sweep")
+			}
+		}
+	}
+
+	// --- multi: several stalled subscribers leave one after the other ---------------------------
+	for i := 0; i < 6*scale; i++ {
+		k := r.Range(2, 4)
+		in := c10Input{Interval: 2}
+		for j := 0; j < k; j++ {
+			in.Ops = append(in.Ops, c10Op{Op: "sub", P: false})
+		}
+		if r.Bool() {
+			in.Ops = append(in.Ops, c10Op{Op: "sub", P: true})
+		}
+		in.Ops = append(in.Ops, c10Op{Op: "burst", K: 0, D: 2, N: r.Range(52, 54)})
+		closeAt := r.Intn(k + 1)
+		for j := 0; j < k; j++ {
+			if j == closeAt {
+				in.Ops = append(in.Ops, c10Op{Op: "close"})
+			}
+			in.Ops = append(in.Ops, c10Op{Op: "cancel", I: j})
+			if r.Chance(1, 3) {
+				in.Ops = append(in.Ops, c10Op{Op: "batch", K: 99})
+			}
+		}
+		if closeAt == k {
+			in.Ops = append(in.Ops, c10Op{Op: "close"})
+		}
+		c10Must(ctx, in, "multi")
+	}
+}
